@@ -17,6 +17,7 @@ package tagexpr
 import (
 	"context"
 	"math"
+	"reflect"
 )
 
 // --------------------------- Operator ---------------------------
@@ -121,7 +122,7 @@ func newEqualExprNode() ExprNode { return &equalExprNode{} }
 func (ee *equalExprNode) Run(ctx context.Context, currField string, tagExpr *TagExpr) interface{} {
 	v0 := ee.leftOperand.Run(ctx, currField, tagExpr)
 	v1 := ee.rightOperand.Run(ctx, currField, tagExpr)
-	if v0 == v1 {
+	if safeEqual(v0, v1) {
 		return true
 	}
 	if s0, ok := toFloat64(v0, false); ok {
@@ -145,6 +146,15 @@ func (ee *equalExprNode) Run(ctx context.Context, currField string, tagExpr *Tag
 		return v1 == nil
 	}
 	return false
+}
+
+// safeEqual reports whether v0 == v1; operands of an uncomparable dynamic
+// type (slice, map, func) are never equal instead of panicking.
+func safeEqual(v0, v1 interface{}) bool {
+	if v0 != nil && !reflect.TypeOf(v0).Comparable() {
+		return false
+	}
+	return v0 == v1
 }
 
 type notEqualExprNode struct{ equalExprNode }
